@@ -71,6 +71,7 @@ def main(argv=None):
         seed = int(os.environ.get("VERIF_SEED", "0"))
     except ValueError:
         seed = 0
+    os.environ["VMC_TIER"] = tier
     t0 = time.time()
     mod = load(prop)
     clauses = mod.clauses(tier)
